@@ -607,7 +607,9 @@ func c14hist(op vh.Op, out *vh.Out, byName map[string]c14sym, textLo, textHi uin
 			for k := range reg {
 				reg[k] = 0xcc
 			}
-			code := c14raw(src.addr, src.dist)
+			// from the pristine image: the source function may itself be a target of this history whose bytes behind the
+			// entry the probe has scribbled (the copy would then scan differently from the original)
+			code := pristine[src.addr-textLo : src.addr-textLo+uintptr(src.dist)]
 			copy(reg[4096+off:], code)
 			if int(4096+off)+len(code)+16 < len(reg) {
 				reg[int(4096+off)+len(code)+16] = 0xc3 // ends goom's scan of the INT3 padding
